@@ -311,13 +311,15 @@ func genReadBuffer(emit func(string), tier string, rng *Rng) {
 	// a few request patterns (all requests equal to k; decoder-like), buffer sizes around the clamp
 	lens := []int{1, 2, 3, 7, 764, 765, 766, 1529, 1530, 1531, 1600}
 	if thorough {
-		lens = append(lens, 4, 5, 6, 767, 1000, 2295, 2296, 3060, 4096, 4861, 4862)
+		lens = append(lens, 4, 5, 6, 767, 1000, 2295, 2296, 3060)
 	}
 	for _, L := range lens {
 		data := seq(L)
 		step := 1
 		if L > 64 && !thorough {
 			step = L/48 + 1
+		} else if L > 64 {
+			step = L/400 + 1
 		}
 		for cut := 0; cut <= L; cut += step {
 			for how := 0; how < 3; how++ {
@@ -356,7 +358,7 @@ func genReadBuffer(emit func(string), tier string, rng *Rng) {
 	// 3. random: sizes × schedules × request sequences
 	n := 4000
 	if thorough {
-		n = 60000
+		n = 40000
 	}
 	for i := 0; i < n; i++ {
 		var L int
@@ -374,7 +376,7 @@ func genReadBuffer(emit func(string), tier string, rng *Rng) {
 		default:
 			L = rng.Intn(800)
 		}
-		if !thorough && L > 2500 && i%4 != 0 {
+		if L > 2500 && i%4 != 0 {
 			L = rng.Intn(1600)
 		}
 		data := rng.Bytes(L)
